@@ -671,3 +671,61 @@ def channel_store_path(I, res, prop):
 
 def channel_store(I, prop):
     return explore(I, "channel-store", lambda I, res: channel_store_path(I, res, prop), max_paths=100)
+
+
+# ---------------------------------------------------------------------------------------------------
+# C09 (c): redelivery through the engine's real tick handler (Runtime's on_tick closure), with and without a running process in the cache
+def tick_path(I, res, prop):
+    from . import scen
+    cx = Ctx(I, res, prop, "tick-handler")
+    W = World(I, policy="fifo", tick_secs=2, max_retry=2, keep_processes=True).boot()
+    cx.W = W
+    with_proc = I.path.choose(3, "other-process")   # 0: engine idle, 1: a running process, 2: a process that has already finished
+    if with_proc == 1:
+        W.start(scen.catalogue()["one_irq"][0], {})
+        W.drain()
+    elif with_proc == 2:
+        W.start(scen.catalogue()["auto"][0], {})
+        W.drain()
+    # an unacknowledged message whose last delivery is older than the interval (2 s) / younger than it (decision)
+    names = [f[0] for f in fields_of(I, "Message")]
+    fi = {f: i for i, f in enumerate(names)}
+    msgs_coll = I.call_raw("store::store::Store::messages", [Ptr(W.store.c, 0)], None)
+    stale = I.path.choose(2, "stale") == 1
+    retry0 = I.path.choose(3, "retry-so-far")
+    rec = sym_record(cx, "Message", "t", "mx")
+    rec.f[fi["status"]] = Enum("MessageStatus", 0, [], "Created")
+    rec.f[fi["retry_times"]] = retry0
+    rec.f[fi["update_time"]] = W.clock - (10_000 if stale else 0)
+    rec.f[fi["pid"]] = "gone"
+    rec.f[fi["tid"]] = "t1"
+    I.call_raw("<dyn store::DbCollection<Item = store::data::message::Message> as store::DbCollection>::create", [Ptr(msgs_coll.c, 0), Ptr([rec], 0)], None)
+    n0 = len(W.messages)
+    W.tick()
+    W.drain()
+    res.witnesses += 1
+    got = I.call_raw("<dyn store::DbCollection<Item = store::data::message::Message> as store::DbCollection>::find", [Ptr(msgs_coll.c, 0), "mx"], None)
+    if got.d != 0:
+        cx.viol("tick-handler:record-lost", "the stored message disappeared at a tick")
+        return
+    g = got.f[0]
+    st, rt = g.f[fi["status"]].d, g.f[fi["retry_times"]]
+    redelivered = [m for m in W.messages[n0:] if m.get("id") == "mx"]
+    tag = ["idle-engine", "running-process", "finished-process"][with_proc]
+    if stale and retry0 < 2:
+        if len(redelivered) != 1:
+            cx.viol("tick-handler:not-redelivered:%s" % tag, "an unacknowledged message older than the interval was redelivered %d times by the tick (retry so far %d, limit 2, %s)" % (len(redelivered), retry0, tag))
+        if rt != retry0 + 1 or st != 0:
+            cx.viol("tick-handler:retry-count:%s" % tag, "stored retry_times=%r status=%r after the tick, expected %d / created" % (rt, st, retry0 + 1))
+    elif stale:
+        if redelivered or st != 3:
+            cx.viol("tick-handler:limit:%s" % tag, "a message at the retry limit: redelivered %d times, status %r (expected none / error)" % (len(redelivered), st))
+    else:
+        if redelivered or rt != retry0 or st != 0:
+            cx.viol("tick-handler:fresh-message-touched:%s" % tag, "a message younger than the interval was redelivered / changed by the tick")
+    if len(res.samples) < 2:
+        res.samples.append(dict(check="tick-handler", other_process=tag, stale=stale, retry_so_far=retry0, redelivered=len(redelivered), status=st, retry_times=str(rt)))
+
+
+def tick_handler(I, prop):
+    return explore(I, "tick-handler", lambda I, res: tick_path(I, res, prop), max_paths=60)
